@@ -1,7 +1,7 @@
 (* C02  Only authentic packets are accepted; altered packets change nothing.
    Statements only; proofs are in proofs/PacketNumberProofs.v and proofs/ProtectProofs.v. *)
 From AQ Require Import lib.Base model.PacketNumber model.Protect gen.PnGen proofs.PacketNumberProofs proofs.ProtectProofs
-  model.KeyPhase proofs.KeyPhaseProofs gen.C02Keys model.KeyDerive proofs.KeyDeriveProofs model.KeyPhaseSec proofs.KeyPhaseSecProofs model.PacketRecv proofs.PacketRecvProofs.
+  model.KeyPhase proofs.KeyPhaseProofs gen.C02Keys model.KeyDerive proofs.KeyDeriveProofs model.KeyPhaseSec proofs.KeyPhaseSecProofs gen.C02Recv model.PacketRecv proofs.PacketRecvProofs.
 
 (* the current source of decode_packet_number (translated by tools/gen/c02_pure.py) is the model *)
 Theorem gen_source_is_model : forall t b e, gen_decode_packet_number t b e = decode_packet_number t b e.
@@ -270,41 +270,103 @@ Theorem genuine_packet_verdict_secrets : forall hmac cs version s0 a, chain_prem
 Proof. exact genuine_packet_verdict_secrets_closed. Qed.
 Print Assumptions genuine_packet_verdict_secrets.
 
-(* ---- receive_datagram's decisions around decryption (model/PacketRecv.v; model only, see docs/C02.md) ---- *)
+(* ---- receive_datagram's decisions around decryption (model/PacketRecv.v; executed against real connections on every check:
+   exec_packetrecv, suite packetrecv; transcription pinned to the source by gen/C02Recv.v) ---- *)
+
+(* the statements of receive_datagram from the choice of the crypto context to the end of the packet loop are, in this order,
+   the ones PacketRecv.v executes (tools/gen/c02_recv.py refuses anything else); get_epoch, _discard_epoch, close and get_spin_bit
+   have the transcribed bodies; _discard_epoch is called from exactly five places; the key phase is touched by request_key_update
+   only; the masks, the close code and the spin bit are the RFC 9000 values *)
+Theorem packet_recv_as_modelled :
+  RECV_SKELETON = modelled_skeleton /\
+  GET_EPOCH_OK = true /\ DISCARD_EPOCH_OK = true /\ DISCARD_SPACE_CLEARS_ACK_AT = true /\ CLOSE_OK = true /\ SPIN_FN_OK = true /\
+  DISCARD_SITES = [(1, 0); (2, 0); (3, 9); (4, 2); (5, 2)] /\ KEY_UPDATE_SITES = [6] /\
+  RESERVED_MASK_SHORT = M_RESERVED_SHORT /\ RESERVED_MASK_LONG = M_RESERVED_LONG /\ PROTOCOL_VIOLATION_CODE = M_PROTOCOL_VIOLATION /\
+  SPIN_BIT = M_SPIN_BIT /\ M_RESERVED_SHORT = 24 /\ M_RESERVED_LONG = 12 /\ M_PROTOCOL_VIOLATION = 10 /\ M_SPIN_BIT = 32.
+Proof. exact packet_recv_as_modelled_lemma. Qed.
+Print Assumptions packet_recv_as_modelled.
 
 (* a packet that is not an unmodified sealing (altered in any bit, forged, sealed under other keys), of any type, with either
    key phase bit, any claimed packet number and content, for whose epoch the receiver has keys, leaves EVERY modelled field of the
-   connection unchanged: key-phase state, packet spaces (expected / largest packet number, ack queue, ack timer), connection
-   and close state, idle timer, delivered payloads, retransmission flag *)
+   connection unchanged: keys of every epoch, key-phase state, packet spaces (expected / largest packet number, ack queue, ack
+   timer, discarded), connection and close state, idle timer, delivered payloads, retransmission flag, peer CID, spin bit *)
 Theorem unauthentic_packet_no_effect_conn : forall frames idle_timeout ack_delay c r now,
   has_keys c (r_epoch r) = true -> q_auth (r_q r) = None -> recv_packet frames idle_timeout ack_delay c r now = c.
 Proof. exact unauthentic_packet_no_effect_conn_lemma. Qed.
 Print Assumptions unauthentic_packet_no_effect_conn.
 
-(* no later effect: from any sequence of received packets the unauthentic ones can be deleted without changing the final state *)
+(* no later effect: from any sequence of received packets the unauthentic ones (for whose epoch the receiver has keys when they
+   arrive -- keys are installed and discarded along the sequence) can be deleted without changing the final state *)
 Theorem unauthentic_packets_no_later_effect_conn : forall frames idle_timeout ack_delay rs c,
-  recv_all frames idle_timeout ack_delay c rs =
-  recv_all frames idle_timeout ack_delay c
-    (filter (fun rn => negb (has_keys c (r_epoch (fst rn)) && match q_auth (r_q (fst rn)) with None => true | Some _ => false end)) rs).
+  recv_all frames idle_timeout ack_delay c rs = recv_all frames idle_timeout ack_delay c (drop_unauth frames idle_timeout ack_delay c rs).
 Proof. exact unauthentic_packets_no_later_effect_lemma. Qed.
 Print Assumptions unauthentic_packets_no_later_effect_conn.
+
+(* an authentic packet whose truncated number does not expand (against expected_packet_number) to the number it was sealed with:
+   no effect either *)
+Theorem out_of_window_packet_no_effect_conn : forall frames idle_timeout ack_delay c r now,
+  has_keys c (r_epoch r) = true -> decoded_pn c r <> r_pn r -> recv_packet frames idle_timeout ack_delay c r now = c.
+Proof. exact out_of_window_no_effect. Qed.
+Print Assumptions out_of_window_packet_no_effect_conn.
 
 (* no keys for the epoch: dropped; the only possible change is the client's one-shot Initial retransmission (RFC 9002 6.2.3) *)
 Theorem key_unavailable_packet_effect : forall frames idle_timeout ack_delay c r now, has_keys c (r_epoch r) = false ->
   recv_packet frames idle_timeout ack_delay c r now = c \/
   (c_is_client c = true /\ c_crypto_retransmitted c = false /\ (r_epoch r = EHandshake \/ r_epoch r = EOneRtt) /\
-   recv_packet frames idle_timeout ack_delay c r now =
-     mkC (c_is_client c) (c_keys_initial c) (c_keys_handshake c) (c_keys_onertt c) (c_pair c) (c_sp_initial c) (c_sp_handshake c)
-       (c_sp_onertt c) true (c_rescheduled c + 1) (c_connected c) (c_close c) (c_close_at c) (c_delivered c)).
+   recv_packet frames idle_timeout ack_delay c r now = set_retransmitted c).
 Proof. exact key_unavailable_effect. Qed.
 Print Assumptions key_unavailable_packet_effect.
 
-(* the reserved bits are examined only after the packet has authenticated: PROTOCOL_VIOLATION, nothing delivered, no packet number
-   recorded, idle timer untouched -- a remote key update has already been applied *)
+(* once an epoch is discarded (Initial: a server's first Handshake packet received / a client's first Handshake packet sent;
+   Handshake: confirmation) every packet of that epoch, authentic or not, is dropped *)
+Theorem discarded_epoch_packet_dropped_conn : forall frames idle_timeout ack_delay c e r now, e = EInitial \/ e = EHandshake ->
+  sp_discarded (space_of c e) = false -> r_epoch r = e ->
+  let c' := discard_epoch c e in
+  recv_packet frames idle_timeout ack_delay c' r now = c' \/ recv_packet frames idle_timeout ack_delay c' r now = set_retransmitted c'.
+Proof. exact discarded_epoch_packet_dropped. Qed.
+Print Assumptions discarded_epoch_packet_dropped_conn.
+
+(* where the Initial epoch goes: a server that opens a Handshake packet has no Initial keys left when receive_datagram returns ... *)
+Theorem server_handshake_packet_discards_initial_conn : forall frames idle_timeout ack_delay c r now p',
+  c_is_client c = false -> c_close c = None -> decrypt c r = Opened p' -> reserved_set r = false -> r_epoch r = EHandshake ->
+  sp_discarded (c_sp_initial c) = false ->
+  has_keys (recv_packet frames idle_timeout ack_delay c r now) EInitial = false /\
+  sp_discarded (c_sp_initial (recv_packet frames idle_timeout ack_delay c r now)) = true.
+Proof. exact server_handshake_packet_discards_initial. Qed.
+Print Assumptions server_handshake_packet_discards_initial_conn.
+
+(* ... and a client once it has sent a Handshake packet (datagrams_to_send) *)
+Theorem client_handshake_sent_discards_initial : forall c, c_is_client c = true -> sp_discarded (c_sp_initial c) = false ->
+  has_keys (on_handshake_sent c) EInitial = false /\ sp_discarded (c_sp_initial (on_handshake_sent c)) = true.
+Proof. exact on_handshake_sent_client. Qed.
+Print Assumptions client_handshake_sent_discards_initial.
+
+(* the reserved bits are examined only after the packet has authenticated: PROTOCOL_VIOLATION and nothing else -- nothing delivered,
+   no packet number recorded, no epoch discarded, peer CID, spin bit and idle timer untouched -- except that a remote key update
+   has already been applied *)
 Theorem reserved_bits_checked_after_decrypt_conn : forall frames idle_timeout ack_delay c r now p',
-  decrypt c r = Opened p' -> Z.land (r_first r) (if epoch_eqb (r_epoch r) EOneRtt then 24 else 12) <> 0 ->
-  let c' := recv_packet frames idle_timeout ack_delay c r now in
-  c_close c' = Some PROTOCOL_VIOLATION /\ c_delivered c' = c_delivered c /\ c_pair c' = p' /\
-  c_sp_initial c' = c_sp_initial c /\ c_sp_handshake c' = c_sp_handshake c /\ c_sp_onertt c' = c_sp_onertt c /\ c_close_at c' = c_close_at c.
+  c_close c = None -> decrypt c r = Opened p' -> reserved_set r = true ->
+  recv_packet frames idle_timeout ack_delay c r now = set_close (set_pair c p') M_PROTOCOL_VIOLATION /\
+  c_close (recv_packet frames idle_timeout ack_delay c r now) = Some 10.
 Proof. exact reserved_bits_checked_after_decrypt. Qed.
 Print Assumptions reserved_bits_checked_after_decrypt_conn.
+
+(* the peer's connection ID is taken from the first packet that opens (reserved bits clear) and never again by receive_datagram *)
+Theorem peer_cid_latched_by_first_opened_packet_only : forall frames idle_timeout ack_delay c r now,
+  (c_peer_latched c = true ->
+     c_peer_latched (recv_packet frames idle_timeout ack_delay c r now) = true /\
+     c_peer_cid (recv_packet frames idle_timeout ack_delay c r now) = c_peer_cid c) /\
+  (forall p', c_close c = None -> c_peer_latched c = false -> decrypt c r = Opened p' -> reserved_set r = false ->
+     c_peer_latched (recv_packet frames idle_timeout ack_delay c r now) = true /\
+     c_peer_cid (recv_packet frames idle_timeout ack_delay c r now) = r_scid r).
+Proof. exact peer_cid_latch_lemma. Qed.
+Print Assumptions peer_cid_latched_by_first_opened_packet_only.
+
+(* the spin bit and _spin_highest_pn change only for a 1-RTT packet that opens and carries a larger packet number *)
+Theorem spin_bit_changes_only_by_newer_authentic_packet : forall frames idle_timeout ack_delay c r now,
+  (c_spin (recv_packet frames idle_timeout ack_delay c r now) <> c_spin c \/
+   c_spin_highest (recv_packet frames idle_timeout ack_delay c r now) <> c_spin_highest c) ->
+  (exists p', decrypt c r = Opened p') /\ r_epoch r = EOneRtt /\ r_pn r > c_spin_highest c /\
+  c_spin_highest (recv_packet frames idle_timeout ack_delay c r now) = r_pn r.
+Proof. exact spin_changes_only_by_newer_onertt. Qed.
+Print Assumptions spin_bit_changes_only_by_newer_authentic_packet.
